@@ -26,7 +26,7 @@ func init() {
 		NotDecided: "convergence itself (a liveness property over schedules).",
 		Run:        runC02})
 	register(&propDef{ID: "C05", Level: "other",
-		Decides:    "the key range moved on a join is exactly the range whose ownership moves: transferKeysUpward selects RangeKeys(low, newPredecessor) with low = previous predecessor (self when nil) only after testing that the new predecessor lies strictly inside (low, self); a leave moves everything (RangeKeys(0,0)); kvMiddleware's ownership tests select (self, surrogate] -> forward and not (predecessor, self] -> stale on all order types.",
+		Decides:    "the key range moved on a join is exactly the range whose ownership moves: transferKeysUpward selects RangeKeys(low, newPredecessor) with low = previous predecessor (self when nil) only after testing that the new predecessor lies strictly inside (low, self); a leave moves everything (RangeKeys(0,0)); kvMiddleware's ownership tests select (self, surrogate] -> forward and not (predecessor, self] -> stale on all order types; in Join and Leave the pointer advisory to the predecessor (Finish*(stabilize, no release)) is never sent after the successor's membership lock was released.",
 		NotDecided: "placement after real churn; duplicates left behind when RemoveKeys fails (it is only logged).",
 		Run:        runC05})
 	register(&propDef{ID: "C08", Level: "other",
@@ -54,6 +54,9 @@ func init() {
 		mutation{"stabilize-no-notify", "chord/local_tasks.go", "if modified && len(succList) > 0 && n.checkNodeState(true) == nil {", "if modified && len(succList) > 1 && n.checkNodeState(true) == nil {", "stabilize-notify"},
 	)
 	addSelfTests("C05",
+		mutation{"join-release-before-advisory", "chord/local_membership.go", "	if err := predecessor.FinishJoin(true, false); err != nil { // advisory to let predecessor update successor list\n		n.logger.Warn(\"error sending advisory to predecessor\", zap.Error(err))\n	}\n	n.state.Set(chord.Active)                                     // release local join lock\n	if err := successors[0].FinishJoin(false, true); err != nil { // release successor join lock\n		n.logger.Warn(\"error releasing join lock in successor\", zap.Error(err))\n	}", "	n.state.Set(chord.Active)                                     // release local join lock\n	if err := successors[0].FinishJoin(false, true); err != nil { // release successor join lock\n		n.logger.Warn(\"error releasing join lock in successor\", zap.Error(err))\n	}\n	if err := predecessor.FinishJoin(true, false); err != nil { // advisory to let predecessor update successor list\n		n.logger.Warn(\"error sending advisory to predecessor\", zap.Error(err))\n	}", "advisory-order"},
+		mutation{"join-no-advisory", "chord/local_membership.go", "	if err := predecessor.FinishJoin(true, false); err != nil { // advisory to let predecessor update successor list\n		n.logger.Warn(\"error sending advisory to predecessor\", zap.Error(err))\n	}\n	n.state.Set(chord.Active) ", "	n.state.Set(chord.Active) ", "advisory-order"},
+		mutation{"join-advisory-after-local-set", "chord/local_membership.go", "	if err := predecessor.FinishJoin(true, false); err != nil { // advisory to let predecessor update successor list\n		n.logger.Warn(\"error sending advisory to predecessor\", zap.Error(err))\n	}\n	n.state.Set(chord.Active)                                     // release local join lock\n", "	n.state.Set(chord.Active)                                     // release local join lock\n	if err := predecessor.FinishJoin(true, false); err != nil { // advisory to let predecessor update successor list\n		n.logger.Warn(\"error sending advisory to predecessor\", zap.Error(err))\n	}\n", "!advisory-order"},
 		mutation{"range-from-self", "chord/local_chord.go", "keys, err = n.kv.RangeKeys(ctx, low.ID(), newPredecessor.ID())", "keys, err = n.kv.RangeKeys(ctx, n.ID(), newPredecessor.ID())", "range-args"},
 		mutation{"surrogate-test-open", "chord/local_kv.go", "chord.Between(n.ID(), id, n.surrogate.Identity().GetId(), true)", "chord.Between(n.ID(), id, n.surrogate.Identity().GetId(), false)", "interval"},
 		mutation{"stale-test-not-negated", "chord/local_kv.go", "n.predecessor != nil && !chord.Between(n.predecessor.ID(), id, n.ID(), true)", "n.predecessor != nil && chord.Between(n.predecessor.ID(), id, n.ID(), true)", "interval"},
@@ -541,6 +544,7 @@ func lockHeldAt(fn *Fn, n ast.Node, lockField string, mode byte) bool {
 // ---------------------------------------------------------------------------------------
 
 func runC05(c *Ctx) {
+	advisoryBeforeRelease(c)
 	up := chordFn(c, "LocalNode", "transferKeysUpward")
 	// low = prevPredecessor (param#1) or recv when nil
 	const pLow = "param#1.ID()|recv.ID()"
@@ -951,4 +955,43 @@ func forwardTargetOK(pv string) bool {
 		}
 	}
 	return pv != ""
+}
+
+// advisoryBeforeRelease: a joiner (leaver) tells its predecessor to refresh its successor
+// pointers while the successor's membership lock is still held. Once that lock is gone the
+// predecessor may start its own leave (join); if it still believes the old successor is
+// adjacent, its keys are handed to a node that does not own them (C05).
+func advisoryBeforeRelease(c *Ctx) {
+	n := 0
+	for _, it := range []struct{ fn, finish string }{{"Join", "FinishJoin"}, {"Leave", "FinishLeave"}} {
+		f := chordFn(c, "LocalNode", it.fn)
+		isAdvisory := func(g *Fn, call *ast.CallExpr) bool {
+			se, ok := ast.Unparen(call.Fun).(*ast.SelectorExpr)
+			if !ok || se.Sel.Name != it.finish || len(call.Args) != 2 || g.Info.Selections[se] == nil {
+				return false
+			}
+			a, _ := g.ConstVal(call.Args[0])
+			b, _ := g.ConstVal(call.Args[1])
+			return a == "true" && b == "false"
+		}
+		adv := f.effectSites(isAdvisory)
+		c.Ob("advisory-order", it.fn+"#predecessor-advisory-present", f.Decl.Pos(), len(adv) > 0, "the predecessor is told to update its successor pointers ("+it.finish+"(true, false))")
+		for _, es := range f.effectSites(finishRelease(it.finish)) {
+			if isAdvisory(es.g, es.call) {
+				continue
+			}
+			n++
+			late := ""
+			reached, _ := es.g.Reach(es.call, nil, nil)
+			for _, r := range reached {
+				for _, a := range adv {
+					if a.g == es.g && containsNode(r, a.call) {
+						late = c.pos(a.call.Pos())
+					}
+				}
+			}
+			c.Ob("advisory-order", it.fn+"#no-advisory-after-successor-release", es.call.Pos(), late == "", "the pointer advisory to the predecessor is never sent after the successor's membership lock was released; advisory reachable after the release at "+late+viaStr(es))
+		}
+	}
+	c.Floor("successor release sites in Join/Leave", n, 2)
 }
